@@ -259,7 +259,7 @@ Definition x86_macho_unwind (f : mfunction) (first : bool) (off_in_fn : N) (fbyt
   end.
 
 Definition x86_stub_helper_rule (offset : N) : rule :=
-  if offset <? 7 then OffsetSp 2
+  if offset <? 9 then OffsetSp 2                 (* fix for S20: was 7, one instruction early *)
   else if offset <? 16 then OffsetSp 3
   else if (offset - 16) mod 10 <? 5 then JustReturn else OffsetSp 2.
 
